@@ -1084,6 +1084,88 @@ EMPTY_ROOTS = ("Relation::map", "Map::builder", "MapBuilder::new", "MapBuilder::
 
 
 
+def k8(rep, src):
+    """The relation-level noise step really adds the noise it is given."""
+    rep.rule(
+        "K8",
+        "relation/rewriting.rs Relation::add_gaussian_noise / add_clipped_gaussian_noise(self, name_sigmas): a column listed in name_sigmas is projected through "
+        "`<expression of the column>.add_gaussian_noise(<its sigma, looked up in name_sigmas>)`; every branch taken for a listed column (`contains_key` / `get`) contains that call",
+        floor=2,
+        necessary="tau-thresholding releases a key when the NOISY count of its units exceeds tau: if the listed column is passed through unchanged the released key set is a deterministic function of the "
+        "protected rows while the (epsilon, delta) event of the step is still reported",
+    )
+    for name in ("add_gaussian_noise", "add_clipped_gaussian_noise"):
+        fs = [f for f in src.find_fns(name=name, file="relation/rewriting.rs") if (f.self_ty or "") == "Relation" and f.body and not f.test]
+        key = "Relation::" + name
+        if len(fs) != 1:
+            rep.undecidable("K8", key, "expected one Relation::%s, found %d" % (name, len(fs)), "src/relation/rewriting.rs")
+            continue
+        f = fs[0]
+        pn = [p["pat"]["name"] for p in f.params if not p.get("self") and p["pat"]["k"] == "ident"]
+        maps = set(pn)
+        for l in find(f.body, "let"):
+            if l.get("init") is not None and any(x["k"] == "path" and x["segs"][0] in maps for x in walk(l["init"])):
+                maps |= set(pat_binds(l["pat"]))
+        for _round in range(3):  # values read out of the map are its sigmas: `if let Some(sigma) = map.get(name)`, `match map.get(name) { Some(sigma) => .. }`, then `let sigma = *sigma;`
+            for n in find(f.body, "if"):
+                if n["cond"]["k"] == "letcond" and any(x["k"] == "path" and x["segs"][0] in maps for x in walk(n["cond"]["e"])):
+                    maps |= set(pat_binds(n["cond"]["pat"]))
+            for m_ in find(f.body, "match"):
+                if any(x["k"] == "path" and x["segs"][0] in maps for x in walk(m_["e"])):
+                    for a in m_["arms"]:
+                        maps |= set(pat_binds(a["pat"]))
+            for l in find(f.body, "let"):
+                if l.get("init") is not None and any(x["k"] == "path" and x["segs"][0] in maps for x in walk(l["init"])):
+                    maps |= set(pat_binds(l["pat"]))
+        calls = [m for m in find(f.body, "mcall") if m["m"] == "add_gaussian_noise" and len(m["args"]) == 1 and path_of(m["recv"]) != "self"]
+        good = [m for m in calls if any(x["k"] == "path" and x["segs"][0] in maps for x in walk(m["args"][0]))]
+        # branches selected by membership in the list (with the statements that follow an early `return` of the other case)
+        listed_branches = []
+
+        def diverges(blk):
+            return blk is not None and blk["k"] == "block" and blk["stmts"] and blk["stmts"][-1]["k"] == "expr" and blk["stmts"][-1]["e"]["k"] in ("return", "continue", "break")
+
+        def on_map(e, meths):
+            return any(x["k"] == "mcall" and x["m"] in meths and path_of(x["recv"]) in maps for x in walk(e))
+
+        for blk in find(f.body, "block"):
+            for i, st in enumerate(blk["stmts"]):
+                rest = {"k": "block", "l": st.get("l", 0), "stmts": blk["stmts"][i + 1 :]}
+                e = st.get("e") if st["k"] == "expr" else (st.get("init") if st["k"] == "let" else None)
+                if not isinstance(e, dict):
+                    continue
+                if e["k"] == "if":
+                    c = e["cond"]
+                    if c["k"] == "letcond":
+                        if on_map(c["e"], ("get", "get_key_value")) and c["pat"]["k"] == "tuplestruct" and c["pat"]["path"]["segs"][-1] == "Some":
+                            listed_branches.append(e["then"])
+                    elif c["k"] == "unary" and c["op"].strip() == "!" and on_map(c["e"], ("contains_key", "contains")):
+                        if e.get("else") is not None:
+                            listed_branches.append(e["else"])
+                        elif diverges(e["then"]):
+                            listed_branches.append(rest)
+                    elif on_map(c, ("contains_key", "contains")):
+                        listed_branches.append(e["then"])
+                elif e["k"] == "match" and on_map(e["e"], ("get", "get_key_value")):
+                    some = [a for a in e["arms"] if a["pat"]["k"] == "tuplestruct" and a["pat"]["path"]["segs"][-1] == "Some"]
+                    none = [a for a in e["arms"] if a not in some]
+                    if st["k"] == "let" and some and all(a["body"]["k"] in ("return", "continue", "break") or diverges(a["body"]) for a in none):
+                        listed_branches.append({"k": "block", "l": st.get("l", 0), "stmts": [{"k": "expr", "l": 0, "e": some[0]["body"], "semi": True}] + rest["stmts"]})
+                    else:
+                        listed_branches += [a["body"] for a in some]
+        for m_ in find(f.body, "match"):  # a match in value position (not a statement of a block)
+            if on_map(m_["e"], ("get", "get_key_value")) and not any(m_ is (st.get("e") if st["k"] == "expr" else st.get("init")) for blk in find(f.body, "block") for st in blk["stmts"]):
+                listed_branches += [a["body"] for a in m_["arms"] if a["pat"]["k"] == "tuplestruct" and a["pat"]["path"]["segs"][-1] == "Some"]
+        bare = [b for b in listed_branches if not any(x is c_ for c_ in good for x in walk(b))]
+        rep.instance("K8", key, {"fn": name, "noise_calls": len(good), "branches_for_listed_columns": len(listed_branches), "without_noise": len(bare)})
+        if not good:
+            rep.violation("K8", key, "Relation::%s never applies `.add_gaussian_noise(<sigma of the column>)` to a column: the listed columns pass through unchanged" % name, f.where())
+        elif bare:
+            rep.violation("K8", key, "a branch of Relation::%s taken for a column listed in `%s` does not add the noise: %s" % (name, pn[0] if pn else "name_sigmas", show(bare[0], 90)), f.where())
+        elif not listed_branches:
+            rep.undecidable("K8", key, "cannot find the branch taken for the listed columns (no `contains_key` / `get` on `%s`)" % (pn[0] if pn else "name_sigmas"), f.where())
+
+
 def k7(rep, src):
     """The cap itself: Relation::limit_col_contributions ranks the rows of a unit by one random draw and keeps the first `max`."""
     rep.rule(
@@ -1173,6 +1255,61 @@ def _same_origin(a, b, lets):
 
     ra, rb = root(a), root(b)
     return isinstance(ra, str) and ra == rb
+
+
+def b4(rep, src, rid="B4"):
+    """Reduce re-builders keep the GROUP BY of the Reduce they start from."""
+    rep.rule(
+        rid,
+        "relation/builder.rs: every function that takes a Reduce apart (`let Reduce { .., group_by, .. } = reduce`) to rebuild it hands the grouping keys to the builder: the bound name reaches a "
+        "`.group_by_iter(..)` / `.group_by(..)` call (directly, through `fold(builder, |b, g| b.group_by(g))`, a `for` loop or a private helper), outside any `if` / `match`",
+        floor=3,
+        necessary="a Reduce rebuilt without its grouping keys is one aggregation over the whole input: `rename_fields` of `SELECT a FROM t GROUP BY a` renders as `SELECT a AS key FROM t` while the schema "
+        "still declares `key` UNIQUE (it is the single First(..) column), and every aggregate of the rewritten query is computed over all groups at once",
+    )
+    BF = "relation/builder.rs"
+    n = 0
+    for f in src.fns:
+        if f.file != BF or f.test or not f.body:
+            continue
+        for l in find(f.body, "let"):
+            pt = l["pat"]
+            if pt["k"] != "struct" or pt["path"]["segs"][-1] != "Reduce":
+                continue
+            fld = [x for x in pt.get("fields", []) if x["name"] == "group_by"]
+            key = "%s@group_by" % f.qual
+            n += 1
+            bound = None
+            if fld:
+                sub = fld[0].get("pat")
+                bs = pat_binds(sub) if sub is not None else ["group_by"]
+                bound = bs[0] if bs else None
+            derived = {bound} if bound else set()
+            for l2 in find(f.body, "let"):  # `let keys = group_by.into_iter();`
+                if l2 is not l and l2.get("init") is not None and any(x["k"] == "path" and x["segs"][0] in derived for x in walk(l2["init"])):
+                    derived |= set(pat_binds(l2["pat"]))
+            hits = []
+            for x, guards in walk_guards(f.body):
+                if x["k"] != "mcall":
+                    continue
+                uses = lambda e: any(y["k"] == "path" and len(y["segs"]) == 1 and y["segs"][0] in derived for y in walk(e))
+                ok = False
+                if x["m"] in ("group_by_iter", "group_by") and x["args"] and uses(x["args"][0]):
+                    ok = True
+                if x["m"] in ("fold", "for_each") and uses(x["recv"]) and x["args"] and x["args"][-1]["k"] == "closure" and any(y["k"] == "mcall" and y["m"] in ("group_by", "group_by_iter") for y in walk(x["args"][-1]["body"])):
+                    ok = True
+                if ok:
+                    hits.append((x, [g for g in guards if g[0] in ("if", "arm")]))
+            for lp in find(f.body, "for"):
+                if any(y["k"] == "path" and len(y["segs"]) == 1 and y["segs"][0] in derived for y in walk(lp["e"])) and any(y["k"] == "mcall" and y["m"] in ("group_by", "group_by_iter") for y in walk(lp["body"])):
+                    hits.append((lp, []))
+            uncond = [h for h, g in hits if not g]
+            rep.instance(rid, key, {"fn": f.qual, "group_by_bound_as": bound, "handed_to_the_builder": len(hits), "unconditionally": len(uncond)})
+            if not uncond:
+                why = "is not bound (`group_by: _` / `..`)" if not bound else ("is handed to the builder only under a condition" if hits else "never reaches `.group_by(..)` / `.group_by_iter(..)`")
+                rep.violation(rid, key, "%s takes a Reduce apart and its `group_by` %s: the rebuilt Reduce has lost its GROUP BY" % (f.qual, why), "src/%s:%d" % (BF, l["l"]))
+    if n == 0:
+        rep.undecidable(rid, "builder.rs@Reduce", "no function of relation/builder.rs destructures a Reduce", "src/" + BF)
 
 
 def b3(rep, src, rid="B3"):
@@ -1422,6 +1559,8 @@ def run(rep):
     b1(rep, Mir(facts.mir_facts()), ["differential_privacy::", "relation::rewriting::"], rid="B1")
     b2(rep, src)
     b3(rep, src)
+    b4(rep, src)
     k7(rep, src)
+    k8(rep, src)
     rep.assume("rustc accepts the tree (the syn facts are parsed from the same files the build uses)")
     rep.assume("method names unique / limit_col_contributions / add_gaussian_noise / filter_columns / filter_fields on a Relation resolve to relation/rewriting.rs (no other impl defines them for Relation)")
